@@ -82,10 +82,11 @@ Proof.
   intros t b Ht Hb. change (length lx_heads * length (c_blocks lx_g))%nat with 21%nat in Ht.
   do 21 (destruct t as [|t];
          [ vm_compute in Hb; injection Hb as <-;
-           intros m x op args k sv stt Hin Hl r1 r2 _ _ Hne; cbn in Hin;
-           first [ contradiction
-                 | destruct Hin as [Hin|[]]; injection Hin as <- <- <- <- <- <- <-; exfalso; apply Hne;
-                   destruct r1, r2; vm_compute; reflexivity ]
+           intros pre m x op args k sv stt post E Hl r1 r2 _ _ Hne; cbn in E;
+           first [ destruct pre; discriminate E
+                 | destruct pre as [|s1 pre];
+                   [ cbn in E; injection E as <- <- <- <- <- <- <-; exfalso; apply Hne; destruct r1, r2; vm_compute; reflexivity
+                   | exfalso; cbn in E; injection E as _ E; destruct pre; discriminate E ] ]
          | ]).
   exfalso. lia.
 Qed.
@@ -123,4 +124,182 @@ Proof.
   split; [exact lx_run_some|]. split; [exact lx_picks|].
   split; [discriminate|].
   intros [|]; vm_compute; reflexivity.
+Qed.
+
+(* the conjunct update_bases_fresh on an array that is updated element-wise TWICE
+     var u[2];  u[0] = a;  u[1] = 1;      i.e.   u.1 = update(u.0, [0], a);  u.2 = update(u.1, [1], 1)
+   the base u.0 of the first update is read without a running version and is assigned by no
+   statement; the base u.1 of the second is assigned by the first, but it is the running version
+   there: loops_ok holds *)
+Definition lu_u (v : N) : vname := {| vn_name := [117%N]; vn_suffix := None; vn_version := Some v |}.
+Definition lu_g : cfg :=
+  {| c_kind := KTemplate; c_params := [];
+     c_decls := [(lu_u 0, TLocal); (lu_u 1, TLocal); (lu_u 2, TLocal); (lx_a, TSigIn)];
+     c_blocks :=
+       [ {| b_index := 0%N; b_depth := 0%N; b_preds := []; b_succs := [];
+            b_stmts := [ SSubst lx_m (lu_u 1) OpVar (EUpdate (lu_u 0) [AIdx (lx_num 0)] (lx_var lx_a) lx_k) None (Some TLocal);
+                         SSubst lx_m (lu_u 2) OpVar (EUpdate (lu_u 1) [AIdx (lx_num 1)] (lx_num 1) lx_k) None (Some TLocal) ] |} ] |}.
+Definition lu_infos : list binfo :=
+  match compute_infos (c_params lu_g) [None] (c_blocks lu_g) [] with Some i => i | None => [] end.
+
+Theorem twice_updated_example :
+  compute_infos (c_params lu_g) [None] (c_blocks lu_g) [] = Some lu_infos /\ infos_ok lu_infos lu_g = true /\
+  existsb (vname_eqb (lu_u 1)) (local_targets_m lu_g) = true /\
+  update_bases_fresh lu_infos lu_g = true /\ loops_ok lu_infos lu_g = true.
+Proof. vm_compute. repeat split; reflexivity. Qed.
+
+(* ---------- the shape of the fourth audit: a loop header with TWO back edges ----------
+     var k = 0; var x = 0;  while (k < 3) { k = k + 1; if (a == x) { x = k; } else { x = 2; } }  o <-- x;
+   as the implementation lifts and renames it (declaration statements left out): the `if` is the
+   last statement of the body, so both arms jump back to the header, block 1, which has the
+   predecessors 0, 3, 4 and the phis  k.1 = phi(k.0, k.2);  x.1 = phi(x.0, x.2, x.3).  Two runs
+   that took different arms arrive with different arguments for x.1; the condition that parted
+   them, `a == x.1`, reads the target of that very phi - but of no EARLIER phi of the header, and
+   in the store of the phi step x.1 still holds the values the condition was evaluated on. *)
+Definition hx_k (v : N) : vname := {| vn_name := [107%N]; vn_suffix := None; vn_version := Some v |}.
+Definition hx_x (v : N) : vname := {| vn_name := [120%N]; vn_suffix := None; vn_version := Some v |}.
+Definition hx_cond : expr := EInfix IEq (lx_var lx_a) (lx_var (hx_x 1)) lx_k.
+Definition hx_g : cfg :=
+  {| c_kind := KTemplate; c_params := [];
+     c_decls := [(lx_a, TSigIn); (hx_k 0, TLocal); (hx_k 1, TLocal); (hx_k 2, TLocal); (lx_b, TSigOut);
+                 (hx_x 0, TLocal); (hx_x 1, TLocal); (hx_x 2, TLocal); (hx_x 3, TLocal)];
+     c_blocks :=
+       [ {| b_index := 0%N; b_depth := 0%N; b_preds := []; b_succs := [1%N];
+            b_stmts := [ SSubst lx_m (hx_k 0) OpVar (lx_num 0) None (Some TLocal);
+                         SSubst lx_m (hx_x 0) OpVar (lx_num 0) None (Some TLocal) ] |};
+         {| b_index := 1%N; b_depth := 0%N; b_preds := [0%N; 3%N; 4%N]; b_succs := [2%N; 5%N];
+            b_stmts := [ SSubst lx_m (hx_k 1) OpVar (EPhi [hx_k 0; hx_k 2] lx_k) None (Some TLocal);
+                         SSubst lx_m (hx_x 1) OpVar (EPhi [hx_x 0; hx_x 2; hx_x 3] lx_k) None (Some TLocal);
+                         SIf lx_m (EInfix ILt (lx_var (hx_k 1)) (lx_num 3) lx_k) 2%N (Some 5%N) ] |};
+         {| b_index := 2%N; b_depth := 1%N; b_preds := [1%N]; b_succs := [3%N; 4%N];
+            b_stmts := [ SSubst lx_m (hx_k 2) OpVar (EInfix IAdd (lx_var (hx_k 1)) (lx_num 1) lx_k) None (Some TLocal);
+                         SIf lx_m hx_cond 3%N (Some 4%N) ] |};
+         {| b_index := 3%N; b_depth := 1%N; b_preds := [2%N]; b_succs := [1%N];
+            b_stmts := [ SSubst lx_m (hx_x 3) OpVar (lx_var (hx_k 2)) None (Some TLocal) ] |};
+         {| b_index := 4%N; b_depth := 1%N; b_preds := [2%N]; b_succs := [1%N];
+            b_stmts := [ SSubst lx_m (hx_x 2) OpVar (lx_num 2) None (Some TLocal) ] |};
+         {| b_index := 5%N; b_depth := 0%N; b_preds := [1%N]; b_succs := [];
+            b_stmts := [ SSubst lx_m lx_b OpSig (lx_var (hx_x 1)) None (Some TSigOut) ] |} ] |}.
+Definition hx_idom : list (option N) := [None; Some 0%N; Some 1%N; Some 2%N; Some 2%N; Some 1%N].
+Definition hx_infos : list binfo :=
+  match compute_infos (c_params hx_g) hx_idom (c_blocks hx_g) [] with Some i => i | None => [] end.
+(* the signal a: 0 for the valuation true (then-arm in the first iteration, else-arm afterwards), 5 for false (always else) *)
+Definition hx_aval (rho : bool) : Z := if rho then 0 else 5.
+Definition hx_S0 : fstore bool := fun x => if vname_eqb lx_a x then Some (fun _ rho => hx_aval rho) else None.
+Definition hx_s0 (rho : bool) : cstore := fun x => if vname_eqb lx_a x then Some (fun _ => hx_aval rho) else None.
+Definition hx_sg (rho : bool) : list (list nat) :=
+  if rho then [[0; 1; 2; 3]; [1; 2; 4]; [1; 2; 4]; [1; 5]]%nat else [[0; 1; 2; 4]; [1; 2; 4]; [1; 2; 4]; [1; 5]]%nat.
+Definition hx_heads : list nat := [0; 1; 1; 1]%nat.
+Definition hx_run (rho : bool) : option cstore :=
+  cexec_path 7 lx_sem2 lx_sem1 lx_call lx_code hx_g (params_map (c_params hx_g)) (hx_s0 rho) (concat (hx_sg rho)).
+Definition hx_s (rho : bool) : cstore := match hx_run rho with Some s => s | None => hx_s0 rho end.
+
+Lemma hx_run_some rho : hx_run rho = Some (hx_s rho).
+Proof.
+  unfold hx_s. assert (H : match hx_run rho with Some _ => true | None => false end = true) by (destruct rho; vm_compute; reflexivity).
+  destruct (hx_run rho); [reflexivity|discriminate].
+Qed.
+
+Notation hx_ents := (ents bool 7 lx_sem2 lx_sem1 lx_call lx_code hx_g (params_map (c_params hx_g)) hx_s0 (blk_s hx_g) (vis_s bool hx_g hx_sg)).
+Notation hx_valid := (Valid bool hx_g [true; false] (blk_s hx_g) (vis_s bool hx_g hx_sg)).
+
+Ltac hx_valid_tac :=
+  intros vt Hvlt Hvin _ Hvv;
+  do 7 (destruct vt as [|vt];
+        [ vm_compute in Hvin; vm_compute in Hvv; try discriminate Hvv;
+          repeat (destruct Hvin as [Hvin|Hvin]; [try discriminate Hvin|]); try contradiction | ]);
+  exfalso; lia.
+
+Lemma hx_cond_values rho :
+  exists v, cval 7 lx_sem2 lx_sem1 lx_call lx_code (hx_ents rho 7%nat) hx_cond = Some v /\ v [] = (if rho then 1 else 0).
+Proof.
+  assert (H1 : match cval 7 lx_sem2 lx_sem1 lx_call lx_code (hx_ents rho 7%nat) hx_cond with Some _ => true | None => false end = true)
+    by (destruct rho; vm_compute; reflexivity).
+  assert (H2 : match cval 7 lx_sem2 lx_sem1 lx_call lx_code (hx_ents rho 7%nat) hx_cond with Some v => v [] | None => 2 end = (if rho then 1 else 0))
+    by (destruct rho; vm_compute; reflexivity).
+  destruct (cval 7 lx_sem2 lx_sem1 lx_call lx_code (hx_ents rho 7%nat) hx_cond) as [v|]; [|discriminate]. exists v. auto.
+Qed.
+
+Lemma hx_picks :
+  picks_decided_sched bool 7 lx_sem2 lx_sem1 lx_call lx_code hx_g hx_idom (params_map (c_params hx_g)) hx_s0 [true; false]
+                      (length hx_heads * length (c_blocks hx_g)) (blk_s hx_g) (vis_s bool hx_g hx_sg).
+Proof.
+  intros t b Ht Hb. change (length hx_heads * length (c_blocks hx_g))%nat with 24%nat in Ht.
+  destruct (Nat.eq_dec t 7) as [->|Hne7].
+  - (* the second entry of the header: the runs arrive from different arms *)
+    vm_compute in Hb. injection Hb as <-.
+    intros pre m x op args k sv stt post E Hl r1 r2 _ _ Hne. cbn in E.
+    destruct pre as [|s1 [|s2 pre]].
+    + (* the phi of k: the same argument k.2 for both *)
+      cbn in E. injection E as <- <- <- <- <- <- <-. exfalso. apply Hne. destruct r1, r2; vm_compute; reflexivity.
+    + (* the phi of x *)
+      cbn in E. injection E as <- <- <- <- <- <- <- <-.
+      assert (Hr : r1 <> r2) by (intros ->; apply Hne; reflexivity).
+      split; [cbn; lia|]. clear Hne.
+      destruct r1, r2; try (exfalso; apply Hr; reflexivity).
+      *
+        destruct (hx_cond_values true) as (v1 & Hc1 & Hv1). destruct (hx_cond_values false) as (v2 & Hc2 & Hv2).
+        exists hx_cond, v1, v2. split.
+        { exists 3%N, 2%N. eexists. exists lx_m, 3%N, (Some 4%N). split; [right; left; reflexivity|]. split; [|split; reflexivity].
+          cbn. eapply ab_up; [discriminate|reflexivity|apply ab_here]. }
+        split; [exact Hc1|]. split; [exact Hc2|]. split; [rewrite Hv1, Hv2; discriminate|].
+        intros y Hy. cbn in Hy. destruct Hy as [<-|[<-|[]]].
+        -- split; [hx_valid_tac|]. split; [hx_valid_tac|]. split; [intros []|]. vm_compute. intros [Hq|[]]. discriminate Hq.
+        -- split; [hx_valid_tac|]. split; [hx_valid_tac|]. split; [intros []|]. vm_compute. intros [Hq|[]]. discriminate Hq.
+      *
+        destruct (hx_cond_values false) as (v1 & Hc1 & Hv1). destruct (hx_cond_values true) as (v2 & Hc2 & Hv2).
+        exists hx_cond, v1, v2. split.
+        { exists 3%N, 2%N. eexists. exists lx_m, 3%N, (Some 4%N). split; [right; left; reflexivity|]. split; [|split; reflexivity].
+          cbn. eapply ab_up; [discriminate|reflexivity|apply ab_here]. }
+        split; [exact Hc1|]. split; [exact Hc2|]. split; [rewrite Hv1, Hv2; discriminate|].
+        intros y Hy. cbn in Hy. destruct Hy as [<-|[<-|[]]].
+        -- split; [hx_valid_tac|]. split; [hx_valid_tac|]. split; [intros []|]. vm_compute. intros [Hq|[]]. discriminate Hq.
+        -- split; [hx_valid_tac|]. split; [hx_valid_tac|]. split; [intros []|]. vm_compute. intros [Hq|[]]. discriminate Hq.
+    + exfalso. cbn in E. injection E as _ _ E. destruct pre; discriminate E.
+  - do 24 (destruct t as [|t];
+           [ try (exfalso; apply Hne7; reflexivity); vm_compute in Hb; injection Hb as <-;
+             intros pre m x op args k sv stt post E Hl r1 r2 _ _ Hne; cbn in E;
+             first [ destruct pre; discriminate E
+                   | destruct pre as [|s1 [|s2 pre]];
+                     [ cbn in E; injection E as <- <- <- <- <- <- <-; exfalso; apply Hne; destruct r1, r2; vm_compute; reflexivity
+                     | cbn in E; injection E as <- <- <- <- <- <- <- <-; exfalso; apply Hne; destruct r1, r2; vm_compute; reflexivity
+                     | exfalso; cbn in E; injection E as _ _ E; destruct pre; discriminate E ] ]
+           | ]).
+    exfalso. lia.
+Qed.
+
+Theorem header_two_back_edges_example :
+  compute_infos (c_params hx_g) hx_idom (c_blocks hx_g) [] = Some hx_infos /\
+  infos_ok hx_infos hx_g = true /\ graph_consistent hx_g = true /\ idom_is_dominator_table hx_g hx_idom = true /\
+  loops_ok hx_infos hx_g = true /\
+  (forall rho, map (hd 0%nat) (hx_sg rho) = hx_heads /\ Forall (fun seg => seg <> []) (hx_sg rho)) /\
+  (forall rho, Forall (StronglySorted lt) (hx_sg rho)) /\
+  (forall rho, exists r, In r [true; false] /\ hx_sg r = hx_sg rho) /\
+  (forall rho, exists tl, concat (hx_sg rho) = 0%nat :: tl) /\
+  (forall rho, rel_store bool rho (hx_s0 rho) hx_S0) /\
+  (forall rho, cexec_path 7 lx_sem2 lx_sem1 lx_call lx_code hx_g (params_map (c_params hx_g)) (hx_s0 rho) (concat (hx_sg rho))
+               = Some (hx_s rho)) /\
+  picks_decided_sched bool 7 lx_sem2 lx_sem1 lx_call lx_code hx_g hx_idom (params_map (c_params hx_g)) hx_s0 [true; false]
+                      (length hx_heads * length (c_blocks hx_g)) (blk_s hx_g) (vis_s bool hx_g hx_sg) /\
+  (* the header has three predecessors, two of them back edges; the deciding condition reads the header's phi target *)
+  (exists b1, nth_error (c_blocks hx_g) 1 = Some b1 /\ b_preds b1 = [0%N; 3%N; 4%N] /\
+              decides hx_g hx_idom b1 hx_cond /\ In (hx_x 1) (expr_reads hx_cond) /\ In (hx_x 1) (local_targets hx_g (b_stmts b1))).
+Proof.
+  split; [vm_compute; reflexivity|]. split; [vm_compute; reflexivity|]. split; [vm_compute; reflexivity|].
+  split; [vm_compute; reflexivity|]. split; [vm_compute; reflexivity|].
+  split.
+  { intros [|]; (split; [reflexivity|]); repeat constructor; discriminate. }
+  split.
+  { intros [|]; cbn; repeat constructor; lia. }
+  split.
+  { intros [|]; [exists true|exists false]; cbn; auto. }
+  split.
+  { intros [|]; eexists; reflexivity. }
+  split.
+  { intros rho x. unfold hx_s0, hx_S0. destruct (vname_eqb lx_a x); cbn; [intros i; reflexivity|exact I]. }
+  split; [exact hx_run_some|]. split; [exact hx_picks|].
+  eexists. split; [reflexivity|]. split; [reflexivity|]. split.
+  { exists 3%N, 2%N. eexists. exists lx_m, 3%N, (Some 4%N). split; [right; left; reflexivity|]. split; [|split; reflexivity].
+    cbn. eapply ab_up; [discriminate|reflexivity|apply ab_here]. }
+  split; [right; left; reflexivity|]. vm_compute. right. left. reflexivity.
 Qed.
